@@ -29,6 +29,7 @@ import (
 	"verif/harness/internal/props/c18"
 	"verif/harness/internal/props/c20"
 	"verif/harness/internal/props/x01"
+	"verif/harness/internal/props/x02"
 	"verif/harness/internal/tlc"
 )
 
@@ -53,6 +54,7 @@ var drivers = map[string]core.Driver{
 	"C17": c17.Driver{},
 	"C18": c18.Driver{},
 	"C20": c20.Driver{},
+	"X02": x02.Driver{}, // extension: FontFamily.Face decision table (spec/FontMatch.tla)
 	"X01": x01.Driver{}, // extension beyond the listed properties (evidence in evidence_ext/)
 }
 
